@@ -47,7 +47,7 @@ def run_extract():
         # the Go-subset -> Lean function translator rejected a construct (tables, constants and the kernel switch were
         # extracted): the previous Funcs.lean / MatrixGo.lean stay in place so that everything else still builds, and the
         # rejection is a broken obligation of exactly the properties whose theorems rest on the regenerated functions
-        TRANSLATOR_PROBLEM = "translator: " + out.strip()[-600:]
+        TRANSLATOR_PROBLEM = "translator: " + " ; ".join(out.strip().splitlines())[-700:]
         global GEN_FUNC_MODULES
         # which regenerated file lost a function: ApiGo.lean (shardSize / checkShards / Split sizes) or Funcs / MatrixGo
         GEN_FUNC_MODULES = ("RSV.Gen.ApiGo",) if "ApiGo" in out else ("RSV.Gen.Funcs", "RSV.Gen.MatrixGo")
